@@ -164,6 +164,7 @@ func VerifH_C02_KernelContracts() {
 		all = append(all, cs.Q...)
 		all = append(all, cs.P...)
 	}
+	all = append(all, 97, 193, 257, 353, 449, 577, 641, 673) // the five-plus-three chain of the Decompose harness
 	{
 		for _, q := range all {
 			if seen[q] {
